@@ -125,6 +125,7 @@ type c07Conn struct {
 	tunnel  atomic.Bool  // converted by Unregister (tunnel conversion)
 	everReg atomic.Bool  // the harness saw it registered as a control connection at some point
 	regOnce atomic.Bool  // regauth registered it already
+	shared  atomic.Bool  // another harness connection carries the same connection id (id reuse)
 	ctlAs   atomic.Int64 // identity of its latest successful authentication if that was a control-type handshake, else 0
 	stream  interface{}  // the stream AcceptConnection returned (stream.PackageStreamer)
 }
@@ -146,6 +147,9 @@ type c07Op struct {
 }
 
 func (o c07Op) String() string {
+	if o.Kind == "reuse" {
+		return fmt.Sprintf("reuse(c%d<-id-of-c%d)", o.Slot, o.Cli)
+	}
 	s := o.Kind
 	if o.Slot >= 0 {
 		s += fmt.Sprintf("(c%d", o.Slot)
@@ -167,10 +171,11 @@ type c07World struct {
 	clients  []int64
 	mu       sync.Mutex // guards slots/all/trace/seq in concurrent runs
 	slots    []*c07Conn
-	all      map[string]*c07Conn
+	all      map[string]*c07Conn   // every connection of this world by harness key
+	byID     map[string][]*c07Conn // ... by connection id (several after an id was reused)
 	seq      int
 	trace    []string
-	prevReg  map[string]bool
+	prevReg  map[*c07Conn]bool
 	reported map[string]bool
 	left     int // connections that left the registry so far (evicted, closed, swept, converted)
 	base     ConnectionStats
@@ -200,7 +205,7 @@ func c07NewWorld(run *vk.Run, nslots, nclients, ctlCap, cloudMode int, pattern u
 		sm.SetCloudControl(&c07Cloud{mode: cloudMode, pattern: pattern, run: run})
 		sm.SetNodeID("node-c07")
 	}
-	w := &c07World{run: run, sm: sm, cancel: cancel, slots: make([]*c07Conn, nslots), all: map[string]*c07Conn{}, prevReg: map[string]bool{}, reported: map[string]bool{}}
+	w := &c07World{run: run, sm: sm, cancel: cancel, slots: make([]*c07Conn, nslots), all: map[string]*c07Conn{}, byID: map[string][]*c07Conn{}, prevReg: map[*c07Conn]bool{}, reported: map[string]bool{}}
 	for i := 0; i < nclients; i++ {
 		w.clients = append(w.clients, int64(1001+i))
 	}
@@ -257,6 +262,7 @@ func (w *c07World) accept(slot int) *c07Conn {
 	w.mu.Lock()
 	w.slots[slot] = c
 	w.all[id] = c
+	w.byID[id] = append(w.byID[id], c)
 	w.mu.Unlock()
 	return c
 }
@@ -273,6 +279,58 @@ func c07SetLastActive(k *ControlConnection, t time.Time) {
 	mu.Lock()
 	k.LastActiveAt = t
 	mu.Unlock()
+}
+
+// ownerOf maps a registry entry to the harness connection whose stream it carries.
+func (w *c07World) ownerOf(k *ControlConnection) *c07Conn {
+	if k == nil {
+		return nil
+	}
+	w.mu.Lock()
+	defer w.mu.Unlock()
+	for _, c := range w.byID[k.ConnID] {
+		if interface{}(k.Stream) == c.stream {
+			return c
+		}
+	}
+	return nil
+}
+
+// regEntry returns the registry entry that carries c's stream (nil if c is not registered).
+func (w *c07World) regEntry(c *c07Conn) *ControlConnection {
+	if k := w.sm.GetControlConnection(c.connID); k != nil && interface{}(k.Stream) == c.stream {
+		return k
+	}
+	return nil
+}
+
+// reuse: a NEW transport arrives under the connection id of the live registered connection
+// src (reconnect with a caller-supplied / reused connection id) and is registered as a
+// control connection. SessionManager.AcceptConnection refuses a reused id (the stream
+// manager still knows it), so the entry point is RegisterControlConnection with a stream
+// from the manager's own factory — the path ClientRegistry.Register handles as
+// "already exists, replacing". The replaced connection is evicted: the statement requires
+// that no lookup returns it and that its transport is closed.
+func (w *c07World) reuse(slot int, src *c07Conn) *c07Conn {
+	w.mu.Lock()
+	w.seq++
+	hkey := fmt.Sprintf("%s#r%d", src.connID, w.seq)
+	w.mu.Unlock()
+	srv, peer := vk.BufPipe(fmt.Sprintf("10.7.0.%d:4100", slot+1), "127.0.0.1:7000")
+	p := &c07Pipe{BufConn: srv, id: src.connID}
+	st := w.sm.streamFactory.NewStreamProcessor(p, p)
+	c := &c07Conn{slot: slot, connID: src.connID, srv: srv, peer: peer, stream: st}
+	c.shared.Store(true)
+	src.shared.Store(true)
+	c.regOnce.Store(true)
+	w.mu.Lock()
+	w.slots[slot] = c
+	w.all[hkey] = c
+	w.byID[src.connID] = append(w.byID[src.connID], c)
+	w.mu.Unlock()
+	w.sm.RegisterControlConnection(NewControlConnection(src.connID, st, srv.RemoteAddr(), "tcp"))
+	w.run.Count("reuse_registered", 1)
+	return c
 }
 
 // adapterCleanup is adapter.cleanupConnection: CloseConnection, then close the transport.
@@ -296,11 +354,15 @@ func (w *c07World) adapterCleanup(c *c07Conn, why string) {
 // reap plays the adapter for every connection whose transport the server closed.
 func (w *c07World) reap() int {
 	n := 0
-	for i := range w.slots {
-		c := w.slot(i)
-		if c != nil && c.srv.IsClosed() {
-			w.adapterCleanup(c, "transport closed by server")
-			n++
+	for again := true; again; {
+		again = false
+		for i := range w.slots {
+			c := w.slot(i)
+			if c != nil && c.srv.IsClosed() {
+				w.adapterCleanup(c, "transport closed by server")
+				n++
+				again = true // the cleanup of one connection may close another (shared connection id)
+			}
 		}
 	}
 	return n
@@ -313,6 +375,19 @@ func (w *c07World) apply(op c07Op) bool {
 	var c *c07Conn
 	if op.Slot >= 0 {
 		c = w.slot(op.Slot)
+	}
+	if op.Kind == "reuse" {
+		// Slot = empty target slot, Cli = source slot whose connection id is reused
+		src := w.slot(op.Cli)
+		if c != nil || src == nil || op.Cli == op.Slot {
+			return false
+		}
+		if d, _ := src.dead(); d || w.regEntry(src) == nil {
+			return false
+		}
+		w.log(op.String())
+		w.reuse(op.Slot, src)
+		return true
 	}
 	var x int64
 	if op.Cli >= 0 {
@@ -330,7 +405,7 @@ func (w *c07World) apply(op c07Op) bool {
 		if !w.conc {
 			any := false
 			for _, k := range sm.clientRegistry.List() {
-				if cc := w.all[k.ConnID]; cc != nil && (cc.aged.Load() || cc.hbAfter.Load()) {
+				if cc := w.ownerOf(k); cc != nil && (cc.aged.Load() || cc.hbAfter.Load()) {
 					any = true
 					if cc.hbAfter.Load() {
 						revived = append(revived, cc)
@@ -377,7 +452,7 @@ func (w *c07World) apply(op c07Op) bool {
 	if c == nil {
 		return false
 	}
-	reg := sm.GetControlConnection(c.connID)
+	reg := w.regEntry(c) // the registry entry carrying this connection's stream
 	if !w.conc && reg != nil && reg.Authenticated && op.Cli >= 0 && reg.ClientID != x && (op.Kind == "login" || op.Kind == "tlogin" || op.Kind == "auth") {
 		w.run.Count("reauth_under_other_id", 1)
 	}
@@ -535,10 +610,13 @@ func (w *c07World) check(op c07Op) {
 	for _, k := range reg.List() {
 		inList[k.ConnID] = k
 	}
-	inAuth := map[string]bool{}
+	inAuth := map[string]*ControlConnection{}
 	for _, k := range reg.ListAuthenticated() {
-		inAuth[k.ConnID] = true
+		inAuth[k.ConnID] = k
 	}
+	// a harness connection is "returned" by a lookup iff the entry carries its stream
+	// (after a connection id was reused, two harness connections share one id)
+	carries := func(k *ControlConnection, c *c07Conn) bool { return k != nil && interface{}(k.Stream) == c.stream }
 	if len(inList) != reg.Count() {
 		w.viol("C07:count-differs-from-list", op, map[string]any{"count": reg.Count(), "list": len(inList)})
 	}
@@ -553,15 +631,15 @@ func (w *c07World) check(op c07Op) {
 		if !dead {
 			continue
 		}
-		if sm.GetControlConnection(c.connID) != nil {
+		if carries(sm.GetControlConnection(c.connID), c) {
 			w.viol("C07:dead-conn-returned|lookup=GetControlConnection|dead="+how, op, map[string]any{"conn": c.connID})
-		} else if inList[c.connID] != nil {
+		} else if carries(inList[c.connID], c) {
 			w.viol("C07:dead-conn-returned|lookup=List|dead="+how, op, map[string]any{"conn": c.connID})
 		}
-		if inAuth[c.connID] && inList[c.connID] == nil {
+		if carries(inAuth[c.connID], c) && !carries(inList[c.connID], c) {
 			w.viol("C07:dead-conn-returned|lookup=ListAuthenticated|dead="+how, op, map[string]any{"conn": c.connID})
 		}
-		if c.cleaned.Load() {
+		if c.cleaned.Load() && !c.shared.Load() {
 			if _, ok := sm.GetConnection(c.connID); ok {
 				w.viol("C07:dead-conn-returned|lookup=GetConnection|dead="+how, op, map[string]any{"conn": c.connID})
 			}
@@ -589,9 +667,7 @@ func (w *c07World) check(op c07Op) {
 		if k == nil {
 			continue
 		}
-		w.mu.Lock()
-		c := w.all[k.ConnID]
-		w.mu.Unlock()
+		c := w.ownerOf(k)
 		extra := map[string]any{"client": x, "returned_conn": k.ConnID, "returned_conn_client": k.GetClientID(), "returned_conn_auth": k.IsAuthenticated()}
 		if c == nil {
 			w.viol("C07:by-client-returns-unknown-conn", op, extra)
@@ -609,14 +685,8 @@ func (w *c07World) check(op c07Op) {
 			w.viol("C07:by-client-returns-unregistered-conn", op, extra)
 		}
 	}
-	for id := range w.prevReg {
-		if inList[id] != nil {
-			continue
-		}
-		w.mu.Lock()
-		c := w.all[id]
-		w.mu.Unlock()
-		if c == nil {
+	for _, c := range all {
+		if !w.prevReg[c] || carries(inList[c.connID], c) {
 			continue
 		}
 		w.left++
@@ -624,7 +694,7 @@ func (w *c07World) check(op c07Op) {
 			continue
 		}
 		if !c.srv.IsClosed() {
-			w.viol("C07:left-registry-transport-open", op, map[string]any{"conn": id})
+			w.viol("C07:left-registry-transport-open", op, map[string]any{"conn": c.connID})
 		} else {
 			w.run.Count("removed_with_transport_closed", 1)
 		}
@@ -637,7 +707,7 @@ func (w *c07World) check(op c07Op) {
 		per := map[int64][]string{}
 		for _, c := range all {
 			k := inList[c.connID]
-			if d, _ := c.dead(); d || k == nil {
+			if d, _ := c.dead(); d || !carries(k, c) {
 				continue
 			}
 			if x := c.ctlAs.Load(); x != 0 && k.Authenticated && k.ClientID == x {
@@ -651,18 +721,16 @@ func (w *c07World) check(op c07Op) {
 			}
 		}
 	}
+	w.prevReg = map[*c07Conn]bool{}
 	for _, c := range all {
-		if inList[c.connID] != nil {
+		if carries(inList[c.connID], c) {
 			c.everReg.Store(true)
+			w.prevReg[c] = true
 			continue
 		}
 		if c.everReg.Load() && !c.tunnel.Load() && !c.cleaned.Load() && !c.srv.IsClosed() {
 			w.viol("C07:left-registry-transport-open", op, map[string]any{"conn": c.connID, "rule": "seen registered earlier"})
 		}
-	}
-	w.prevReg = map[string]bool{}
-	for id := range inList {
-		w.prevReg[id] = true
 	}
 }
 
@@ -681,7 +749,7 @@ func (w *c07World) step(op c07Op) bool {
 		if k == nil || w.sm.GetControlConnectionByClientID(x) != nil {
 			continue
 		}
-		if c := w.all[k.ConnID]; c != nil && (op.Slot != c.slot || op.Kind == "kick") {
+		if c := w.ownerOf(k); c != nil && (op.Slot != c.slot || op.Kind == "kick") && op.Kind != "reuse" {
 			if d, _ := c.dead(); !d && w.sm.GetControlConnection(k.ConnID) == k && k.Authenticated && k.ClientID == x {
 				w.run.Count("obs_index_lost_while_holder_untouched", 1)
 			}
@@ -690,7 +758,7 @@ func (w *c07World) step(op c07Op) bool {
 	if op.Kind == "login" {
 		x := w.clients[op.Cli]
 		if k := before[x]; k != nil {
-			if c := w.all[k.ConnID]; c != nil && c.slot != op.Slot {
+			if c := w.ownerOf(k); c != nil && c.slot != op.Slot {
 				if d, _ := c.dead(); !d && w.sm.GetControlConnection(k.ConnID) == k && w.sm.GetControlConnectionByClientID(x) != k {
 					w.run.Count("obs_duplicate_login_left_old_conn_registered", 1)
 				}
@@ -750,6 +818,14 @@ func c07Alphabet(nslots, nclients int, reduced bool) []c07Op {
 			out = append(out, c07Op{"kick", s, x})
 		}
 	}
+	for s := 0; s < nslots; s++ {
+		for src := 0; src < nslots; src++ {
+			if src == s || (reduced && !((s == 2 && src == 0) || (s == 0 && src == 1))) {
+				continue
+			}
+			out = append(out, c07Op{"reuse", s, src})
+		}
+	}
 	out = append(out, c07Op{"sweep", -1, -1})
 	return out
 }
@@ -784,7 +860,7 @@ func TestVerifC07RegistryExhaustive(t *testing.T) {
 	depth := run.Pick(3, 4)
 	full := c07Alphabet(3, 2, false)
 	red := c07Alphabet(3, 2, true)
-	run.Rule(fmt.Sprintf("every sequence of enabled operations up to depth %d over the reduced alphabet (%d ops: without tunnel-type logins, disconnect commands and most kick targets) and up to depth %d over the full alphabet, over 3 connection slots and clients A,B from %d prefix states (cloud control: none / every call fails / healthy / every other call fails); full alphabet (%d ops): accept, failed handshake, control login as X (real handleHandshake incl. eviction of the previous holder), tunnel-type login as X, UpdateControlConnectionAuth(X), KickOldControlConnection(X,new), age (LastActiveAt into the past), heartbeat, stale sweep, Unregister (tunnel conversion), disconnect command, peer EOF (adapter cleanup); an operation that is disabled in the current state (no effect) prunes its subtree; distinct = prefix + operation sequence; non-trivial = at least one connection left the registry", depth, len(red), depth-1, len(c07Prefixes()), len(full)))
+	run.Rule(fmt.Sprintf("every sequence of enabled operations up to depth %d over the reduced alphabet (%d ops: without tunnel-type logins, disconnect commands and most kick targets) and up to depth %d over the full alphabet, over 3 connection slots and clients A,B from %d prefix states (cloud control: none / every call fails / healthy / every other call fails); full alphabet (%d ops): accept, failed handshake, control login as X (real handleHandshake incl. eviction of the previous holder), tunnel-type login as X, UpdateControlConnectionAuth(X), KickOldControlConnection(X,new), age (LastActiveAt into the past), heartbeat, stale sweep, Unregister (tunnel conversion), disconnect command, peer EOF (adapter cleanup), reuse (a new transport registered under the connection id of a live registered connection); an operation that is disabled in the current state (no effect) prunes its subtree; distinct = prefix + operation sequence; non-trivial = at least one connection left the registry", depth, len(red), depth-1, len(c07Prefixes()), len(full)))
 	run.Observe("alphabet_full", c07Names(full))
 	samples := 0
 	var seq []c07Op
@@ -856,6 +932,7 @@ func TestVerifC07RegistryExhaustive(t *testing.T) {
 	run.Floor("evicted_conns_reaped", 10)
 	run.Floor("tunnel_conversions", 10)
 	run.Floor("cloud_faults_on_disconnect", 50)
+	run.Floor("reuse_registered", 10)
 }
 
 // ---------------------------------------------------------------------------
@@ -900,6 +977,7 @@ func TestVerifC07RegistryRandom(t *testing.T) {
 	run.Floor("sweep_removed", 20)
 	run.Floor("sweep_spared_heartbeated_conn", 3)
 	run.Floor("cloud_faults_on_disconnect", 50)
+	run.Floor("reuse_registered", 20)
 	run.Floor("register_at_cap", 5) // eviction of the oldest connection at the control-connection cap
 }
 
@@ -917,9 +995,9 @@ func TestVerifC07RegistryConcurrent(t *testing.T) {
 	if regOnly {
 		rounds = run.Pick(300, 1500)
 	}
-	run.Rule(fmt.Sprintf("%d goroutines x 3 phases x 12 seeded random operations per round over 8 connection slots (one owner each) and clients A,B,C; own-slot operations: accept, login/tunnel-login/failed handshake, UpdateControlConnectionAuth, heartbeat, Unregister, disconnect command, peer EOF; global: KickOldControlConnection, ageing, stale sweep, CloseConnection of any slot, lookups; registry-only mix (no packet handlers) when run under -race: %v; cloud-control double mode = round mod 5 (absent, always failing, alternating, seeded pattern, healthy); invariants at barriers after adapter cleanup; distinct = round x phase outcomes (registered set shape)", G, regOnly))
+	run.Rule(fmt.Sprintf("%d goroutines x 3 phases x 12 seeded random operations per round over 8 connection slots (one owner each) and clients A,B,C; own-slot operations: accept, reuse of another slot's connection id (not in the -race mix), login/tunnel-login/failed handshake, UpdateControlConnectionAuth, heartbeat, Unregister, disconnect command, peer EOF; global: KickOldControlConnection, ageing, stale sweep, CloseConnection of any slot, lookups; registry-only mix (no packet handlers) when run under -race: %v; cloud-control double mode = round mod 5 (absent, always failing, alternating, seeded pattern, healthy); invariants at barriers after adapter cleanup; distinct = round x phase outcomes (registered set shape)", G, regOnly))
 	run.Observe("registry_only_mix", regOnly)
-	ownFull := []string{"accept", "accept", "login", "login", "login", "tlogin", "fail", "auth", "hb", "hb", "unreg", "disc", "close"}
+	ownFull := []string{"reuse", "accept", "accept", "login", "login", "login", "tlogin", "fail", "auth", "hb", "hb", "unreg", "disc", "close"}
 	ownReg := []string{"accept", "accept", "regauth", "regauth", "regauth", "unreg", "close"}
 	global := []string{"kick", "kick", "age", "age", "sweep", "apiclose", "lookups"}
 	if regOnly {
@@ -963,6 +1041,9 @@ func TestVerifC07RegistryConcurrent(t *testing.T) {
 								own = ownReg
 							}
 							op = c07Op{own[rg.Intn(len(own))], g, rg.Intn(3)}
+							if op.Kind == "reuse" {
+								op.Cli = rg.Intn(G) // source slot whose connection id is reused
+							}
 						} else {
 							op = c07Op{global[rg.Intn(len(global))], rg.Intn(G), rg.Intn(3)}
 							if op.Kind == "kick" {
@@ -1026,14 +1107,14 @@ func (w *c07World) indexEntries() int {
 // registered, was not converted to a tunnel and not closed by the harness, must have
 // had its transport closed by the server.
 func (w *c07World) checkTransportOnly(op c07Op) {
-	in := map[string]bool{}
+	in := map[string]*ControlConnection{}
 	for _, k := range w.sm.clientRegistry.List() {
-		in[k.ConnID] = true
+		in[k.ConnID] = k
 	}
 	w.mu.Lock()
 	defer w.mu.Unlock()
 	for _, c := range w.all {
-		if in[c.connID] {
+		if k := in[c.connID]; k != nil && interface{}(k.Stream) == c.stream {
 			c.everReg.Store(true)
 			continue
 		}
